@@ -291,6 +291,7 @@ func (g *IG) threadReturns() {
 			return 0, false
 		}
 		cur, testIf := sp.after[0], -1
+		var chain []int // the nodes between the call and the test; they are kept on every threaded path
 		for steps := 0; steps < 16 && cur >= 0; steps++ {
 			in := g.Ins[cur]
 			if _, isIf := in.(*ssa.If); isIf {
@@ -300,7 +301,16 @@ func (g *IG) threadReturns() {
 			switch x := in.(type) {
 			case *ssa.Extract, *ssa.BinOp, *ssa.Jump, *ssa.DebugRef:
 			case *ssa.UnOp:
-				if x.Op != token.NOT {
+				if x.Op == token.MUL {
+					if _, ok := cellOf(x.X); !ok {
+						cur = -1 // only loads of local variables
+					}
+				} else if x.Op != token.NOT {
+					cur = -1
+				}
+			case *ssa.Store:
+				// err = helper(): a store into a local variable
+				if _, ok := cellOf(x.Addr); !ok {
 					cur = -1
 				}
 			default:
@@ -310,6 +320,7 @@ func (g *IG) threadReturns() {
 				cur = -1
 				break
 			}
+			chain = append(chain, cur)
 			cur = g.Succ[cur][0]
 		}
 		if testIf < 0 || len(g.Succ[testIf]) != 2 {
@@ -387,11 +398,21 @@ func (g *IG) threadReturns() {
 					}
 				}
 			}
+			// the nodes between the call and the test stay on the path (a private copy)
+			tail := rn
+			for _, cn := range chain {
+				k := len(g.Ins)
+				g.Ins = append(g.Ins, g.Ins[cn])
+				g.Succ = append(g.Succ, nil)
+				g.Copies[cn] = append(g.Copies[cn], k)
+				g.Succ[tail] = []int{k}
+				tail = k
+			}
 			if decided {
 				if val {
-					g.Succ[rn] = []int{tT}
+					g.Succ[tail] = []int{tT}
 				} else {
-					g.Succ[rn] = []int{tF}
+					g.Succ[tail] = []int{tF}
 				}
 				continue
 			}
@@ -404,7 +425,7 @@ func (g *IG) threadReturns() {
 				g.CondOv[n] = &ssa.BinOp{Op: op, X: r, Y: K}
 			}
 			g.Copies[testIf] = append(g.Copies[testIf], n)
-			g.Succ[rn] = []int{n}
+			g.Succ[tail] = []int{n}
 		}
 	}
 }
@@ -752,6 +773,20 @@ func condFact(cond ssa.Value, branch bool) (Fact, bool) {
 					return Fact{Op: token.NEQ, X: b.X}, true
 				}
 			}
+			// x&M == M with a single-bit mask M is x&M != 0
+			if op == token.EQL || op == token.NEQ {
+				for _, pr := range [][2]ssa.Value{{b.X, b.Y}, {b.Y, b.X}} {
+					if _, mask, ok := maskTest(pr[0]); ok && mask != 0 && mask&(mask-1) == 0 {
+						if k, ok := constUint64(pr[1]); ok && k == mask {
+							flip := token.NEQ
+							if op == token.NEQ {
+								flip = token.EQL
+							}
+							return Fact{Op: flip, X: pr[0], Y: ssa.NewConst(constant.MakeInt64(0), pr[1].Type())}, true
+						}
+					}
+				}
+			}
 			return Fact{Op: op, X: b.X, Y: b.Y}, true
 		}
 	}
@@ -773,6 +808,40 @@ func (g *IG) EdgeFact(n, k int) (Fact, bool) {
 }
 
 // AllEdgeFacts lists the facts of all If edges of the function.
+func (g *IG) rawEdgeFacts() []Fact {
+	var out []Fact
+	for n := range g.Ins {
+		if _, ok := g.Ins[n].(*ssa.If); !ok {
+			continue
+		}
+		for k := 0; k < 2; k++ {
+			if f, ok := g.EdgeFact(n, k); ok {
+				out = append(out, f)
+			}
+		}
+	}
+	return out
+}
+
+// factsNoExpand: the facts of the If edges every path to target crosses,
+// without derived facts.
+func (g *IG) factsNoExpand(target int) []Fact {
+	var out []Fact
+	base := g.Reach([]int{0}, nil, nil)
+	if !base[target] {
+		return nil
+	}
+	for _, f := range g.rawEdgeFacts() {
+		if !base[f.Edge.From] {
+			continue
+		}
+		if r := g.Reach([]int{0}, map[Edge]bool{f.Edge: true}, nil); !r[target] {
+			out = append(out, f)
+		}
+	}
+	return out
+}
+
 func (g *IG) AllEdgeFacts() []Fact {
 	var out []Fact
 	for n := range g.Ins {
@@ -782,6 +851,14 @@ func (g *IG) AllEdgeFacts() []Fact {
 		for k := 0; k < 2; k++ {
 			if f, ok := g.EdgeFact(n, k); ok {
 				out = append(out, f)
+				// the fact a test of a merged value implies for the one operand it can be
+				if phi, isPhi := f.X.(*ssa.Phi); isPhi && f.Y != nil {
+					_ = phi
+					for _, d := range g.expandBoolPhis([]Fact{f}, 0)[1:] {
+						d.Edge = f.Edge
+						out = append(out, d)
+					}
+				}
 			}
 		}
 	}
@@ -818,7 +895,7 @@ func (g *IG) FactsAt(target int) []Fact {
 		}
 		return nil
 	}
-	for _, f := range g.AllEdgeFacts() {
+	for _, f := range g.rawEdgeFacts() {
 		if !base[f.Edge.From] {
 			continue
 		}
@@ -854,7 +931,11 @@ func (g *IG) expandBoolPhis(facts []Fact, depth int) []Fact {
 			}
 			var rest ssa.Value
 			n, okShape := 0, true
-			for _, e := range phi.Edges {
+			var pe []Edge
+			if _, inGraph := g.Idx[phi]; inGraph && depth < 2 {
+				pe = g.predEdges(phi.Block())
+			}
+			for i, e := range phi.Edges {
 				if ec, isC := e.(*ssa.Const); isC {
 					if dec, val := foldConstCmp(f.Op, ec, k); dec && !val {
 						continue
@@ -864,6 +945,26 @@ func (g *IG) expandBoolPhis(facts []Fact, depth int) []Fact {
 				}
 				if e == ssa.Value(phi) {
 					continue
+				}
+				// an operand already known (on its incoming edge) to fail the test
+				if pe != nil && i < len(pe) {
+					known := g.factsNoExpand(pe[i].From)
+					if ft, ok := g.EdgeFact(pe[i].From, pe[i].K); ok {
+						known = append(known, ft)
+					}
+					excluded := false
+					for _, kf := range known {
+						kc, isKC := kf.Y.(*ssa.Const)
+						if kf.Y == nil || !isKC || kf.X != e || !sameConst(kc, k) {
+							continue
+						}
+						if kf.Op == negate(f.Op) {
+							excluded = true
+						}
+					}
+					if excluded {
+						continue
+					}
 				}
 				rest = e
 				n++
@@ -1207,6 +1308,15 @@ func (g *IG) flattenCase(c RetCase, blk *ssa.BasicBlock, depth int) []RetCase {
 		if phi, ok := v.(*ssa.Phi); ok && phi.Block() == blk {
 			hasPhi = true
 		}
+		// a computed boolean result (return cond) at a merge point: one case
+		// per incoming path, on which an earlier test of cond decides it
+		if _, isC := v.(*ssa.Const); !isC && depth == 0 && len(blk.Preds) > 1 && g.Ins[c.Ret].Block() == blk {
+			if bt, ok := v.Type().Underlying().(*types.Basic); ok && bt.Info()&types.IsBoolean != 0 {
+				if _, isPhi := v.(*ssa.Phi); !isPhi {
+					hasPhi = true
+				}
+			}
+		}
 	}
 	if !hasPhi {
 		return []RetCase{c}
@@ -1351,4 +1461,160 @@ func (g *IG) ValFacts(c ValCase) []Fact {
 func (g *IG) isMerge(v ssa.Value) bool {
 	cs := g.valueCases(v, 0)
 	return len(cs) > 1 || len(cs) == 1 && cs[0].Val != v
+}
+
+
+// decideBool evaluates a boolean value under a set of facts: a fact about the
+// value itself, or (for a comparison) a fact about the same operands.
+func decideBool(v ssa.Value, facts []Fact) (val, ok bool) {
+	neg := false
+	for {
+		u, isU := v.(*ssa.UnOp)
+		if !isU || u.Op != token.NOT {
+			break
+		}
+		v = u.X
+		neg = !neg
+	}
+	if b, isC := constBool(v); isC {
+		return b != neg, true
+	}
+	for _, f := range facts {
+		if f.Y == nil && f.X == v {
+			return (f.Op == token.EQL) != neg, true
+		}
+	}
+	if b, isB := v.(*ssa.BinOp); isB {
+		for _, f := range facts {
+			if f.Y == nil {
+				continue
+			}
+			op := f.Op
+			switch {
+			case f.X == b.X && f.Y == b.Y:
+			case f.X == b.Y && f.Y == b.X:
+				op = swapOp(op)
+			default:
+				continue
+			}
+			if op == b.Op {
+				return !neg, true
+			}
+			if op == negate(b.Op) {
+				return neg, true
+			}
+		}
+	}
+	return false, false
+}
+
+
+// valueCasesAt: the cases of a merged value that are possible at node n (the
+// case's place can reach n).
+func (g *IG) valueCasesAt(v ssa.Value, n int) []ValCase {
+	var out []ValCase
+	for _, vc := range g.valueCases(v, n) {
+		if vc.At == n {
+			out = append(out, vc)
+			continue
+		}
+		from := g.Succ[vc.At]
+		if vc.Edge != nil {
+			from = []int{g.Succ[vc.Edge.From][vc.Edge.K]}
+		}
+		if g.Reach(from, nil, nil)[n] {
+			out = append(out, vc)
+		}
+	}
+	return out
+}
+
+// ReachAssuming explores the graph from the target of edge e under the
+// assumption that e's facts hold: an edge whose fact contradicts one of them
+// (same value, same constant, opposite comparison) is not taken for as long as
+// the value has not been computed again (the path has not passed its defining
+// instruction, for a phi its block). extra are facts assumed in addition
+// (derived ones, for example about the operand a merged value must be).
+func (g *IG) ReachAssuming(e Edge, extra []Fact) []bool {
+	var assumed []Fact
+	if f, ok := g.EdgeFact(e.From, e.K); ok {
+		assumed = append(assumed, f)
+		for _, d := range g.expandBoolPhis([]Fact{f}, 0)[1:] {
+			assumed = append(assumed, d)
+		}
+	}
+	assumed = append(assumed, extra...)
+	// contradicting edges per assumed fact, and the node that ends the assumption
+	type asm struct {
+		cut map[Edge]bool
+		end int
+	}
+	var asms []asm
+	for _, a := range assumed {
+		if a.Y == nil {
+			continue
+		}
+		ak, ok := a.Y.(*ssa.Const)
+		if !ok {
+			continue
+		}
+		as := asm{cut: map[Edge]bool{}, end: -1}
+		for _, f := range g.AllEdgeFacts() {
+			fk, ok := f.Y.(*ssa.Const)
+			if f.Y == nil || !ok || f.X != a.X || !sameConst(fk, ak) {
+				continue
+			}
+			if f.Op == negate(a.Op) {
+				as.cut[f.Edge] = true
+			}
+		}
+		switch d := a.X.(type) {
+		case *ssa.Phi:
+			if n, ok := g.Idx[d]; ok {
+				as.end = g.First[d.Block()]
+				_ = n
+			}
+		case ssa.Instruction:
+			if n, ok := g.Idx[d]; ok {
+				as.end = n
+			}
+		}
+		asms = append(asms, as)
+	}
+	// state: node x set of live assumptions (bitmask)
+	type st struct {
+		n    int
+		live uint32
+	}
+	full := uint32(1)<<uint(len(asms)) - 1
+	seen := map[st]bool{}
+	out := make([]bool, len(g.Ins))
+	work := []st{{g.Succ[e.From][e.K], full}}
+	for len(work) > 0 {
+		s := work[len(work)-1]
+		work = work[:len(work)-1]
+		if seen[s] {
+			continue
+		}
+		seen[s] = true
+		out[s.n] = true
+		live := s.live
+		for i, a := range asms {
+			if a.end == s.n {
+				live &^= 1 << uint(i)
+			}
+		}
+		for k, t := range g.Succ[s.n] {
+			blocked := false
+			for i, a := range asms {
+				if live&(1<<uint(i)) != 0 && a.cut[Edge{s.n, k}] {
+					blocked = true
+				}
+			}
+			if !blocked {
+				work = append(work, st{t, live})
+			}
+		}
+	}
+	return out
 }
